@@ -12,6 +12,7 @@ Conventions of the generated programs: the announcement of a rendezvous on uncon
 `add a_uK 1` (its R line is the atomic announcement of the documented protocol)."""
 import os, json, re
 import vlib, trace
+import machine_common
 from props import c08c14_steps as steps
 
 VF = ["Uncond/UncondModel.v", "Uncond/UncondProofs.v"]
@@ -99,6 +100,46 @@ def uncond_block(u, nthreads, events):
 # the independent oracle of the property (no model involved)
 # --------------------------------------------------------------------------------------------------
 
+_MS = re.compile(r"M cur=\[(.*?)\] dq=\[(.*)\]$")
+
+
+def insertion_check(trace_text):
+    """the real insertion behind C08_signal_hands_over, on every run that carries machine snapshots (`msnap 1`):
+    the POINT uncond.sig.push sits BEFORE myth_queue_push.  The line is written immediately before the access and
+    every participant writes its next line (with the snapshot) as soon as it proceeds, before it touches anything,
+    so the snapshot of the FIRST line after the push line - whoever writes it - shows the machine right after the
+    push: the handed-over thread must be exactly once in the SIGNALLER's run queue and nowhere else (no other
+    queue, no worker's current thread).  Returns (message | None, number of insertions checked)."""
+    lines = trace_text.split("\n")
+    n = 0
+    for i, line in enumerate(lines):
+        if not line.startswith("P ") or " uncond.sig.push " not in line:
+            continue
+        w = line.split()
+        if len(w) < 7:
+            continue
+        wk, x = w[2], w[6]
+        j = i + 1
+        while j < len(lines) and lines[j][:2] not in ("C ", "R ", "P ", "S ", "E "):
+            j += 1
+        if j + 1 >= len(lines) or not lines[j + 1].startswith("M "):
+            continue                                    # no snapshot (run cut short / msnap off)
+        m = _MS.match(lines[j + 1])
+        if not m:
+            continue
+        cur = [c for c in m.group(1).split(",")]
+        dqs = [q.split() for q in re.findall(r"\[([^\[\]]*)\]", m.group(2))]
+        k = int(wk[1:])
+        mine = dqs[k].count(x) if k < len(dqs) else 0
+        total = sum(q.count(x) for q in dqs) + cur.count(x)
+        n += 1
+        if mine != 1 or total != 1:
+            return ("after the push of %s (%s) it is %d time(s) in the signaller's run queue and %d time(s) in a run queue "
+                    "or current anywhere (expected exactly once, in w%d's queue): %s"
+                    % (x, line, mine, total, k, lines[j + 1])), n
+    return None, n
+
+
 def oracle(case, res):
     """returns (None | message, stats)"""
     objs, threads, scripts, _ = trace.parse_case(case)
@@ -109,7 +150,8 @@ def oracle(case, res):
             expect[(int(w[2]), int(w[3]))] = int(w[4])
     unconds = [n for n, (k, _) in objs.items() if k == "uncond"]
     evs = res["events"]
-    stats = {"rendezvous": 0, "early": 0, "late": 0}
+    stats = {"rendezvous": 0, "early": 0, "late": 0, "same_worker": 0, "diff_worker": 0, "resumed_elsewhere": 0,
+             "main_waits": 0, "insertions_checked": 0}
     # per thread call stack, top-level op index
     stack, topidx = {}, {}
     wait_open = {}      # (u, T) -> {"pushes": n, "published": bool}
@@ -137,8 +179,10 @@ def oracle(case, res):
                 for (u2, W2), o2 in wait_open.items():
                     if u2 == u and o2["pushes"] == 0:      # handed over but not yet resumed does not count
                         return "generator error: two waits outstanding on %s" % u, stats
-                wait_open[(u, T)] = {"pushes": 0, "published": False, "c": e}
+                wait_open[(u, T)] = {"pushes": 0, "published": False, "c": e, "w": e.w}
                 nwait[u] += 1
+                if T == 0:
+                    stats["main_waits"] += 1
             elif e.words[0] == "usignal" and e.words[1] in npush:
                 sig_open[(e.words[1], T)] = {"pushes": 0, "spun": False}
                 nsig[e.words[1]] += 1
@@ -155,6 +199,8 @@ def oracle(case, res):
                 if e.words[1] != "0":
                     return "uwait returned %s" % e.words[1], stats
                 stats["rendezvous"] += 1
+                if o["w"] != e.w:
+                    stats["resumed_elsewhere"] += 1
             elif w[0] == "usignal" and w[1] in npush:
                 o = sig_open.pop((w[1], T), None)
                 if o is None or o["pushes"] != 1:
@@ -198,10 +244,18 @@ def oracle(case, res):
                 if not tgt["published"]:
                     return "%s handed over before it published itself from the switch callback" % x, stats
                 tgt["pushes"] += 1
+                stats["same_worker" if tgt["w"] == e.w else "diff_worker"] += 1
                 so = sig_open.get((u, T))
                 if so is None:
                     return "push on %s outside a usignal call (%s)" % (u, e.raw), stats
                 so["pushes"] += 1
+    msg, nins = insertion_check(res["trace_text"])
+    stats["insertions_checked"] = nins
+    if msg:
+        return msg, stats
+    sp = machine_common.oracle_single_place(res["trace_text"])
+    if sp:
+        return sp, stats
     if res["verdict"] is None:
         return "run produced no verdict (the library crashed?) rc=%s: %s" % (res["rc"], res.get("stderr", "")[-200:]), stats
     if not res["verdict"].startswith("DONE"):
@@ -243,7 +297,8 @@ class Prog:
         self.expect.append((t, self.op(t, s), v))
 
     def text(self, workers, seed, pswitch, maxsteps=30000):
-        c = trace.case_text(workers, seed, self.objs, self.threads, pswitch=pswitch, maxsteps=maxsteps)
+        c = trace.case_text(workers, seed, self.objs, self.threads, pswitch=pswitch, maxsteps=maxsteps,
+                            extra=({"msnap": 1} if maxsteps <= 30000 else None))
         return c + "".join("# expect %d %d %d\n" % e for e in self.expect)
 
 
@@ -269,6 +324,37 @@ def pair_handoff(r, p, i, unsafe):
     p.op(P, "set seq%d %d" % (i, 7 + i))
     p.op(P, "usignal %s" % u)
     p.op(P, "join %d" % C)
+    return [P]
+
+
+def mainwait(r, p, i, unsafe, rounds):
+    """the MAIN thread (t0) is the waiter: it announces, creates the signaller parent-first and waits; with
+    rounds > 1 a ping-pong in which main waits on u and signals v"""
+    u, v = "u%d" % i, "v%d" % i
+    p.objs += ["%s uncond" % u, "%s uncond" % v, "a_%s var 0" % u, "a_%s var 0" % v, "seq%d var 0" % i, "ack%d var 0" % i]
+    P = p.new_thread()
+    p.op(0, "add a_%s 1" % u)
+    p.op(0, "create %d pf" % P)
+    for k in range(1, rounds + 1):
+        ysafe(r, p, P, 1)
+        p.op(P, "set seq%d %d" % (i, 60 + k))
+        if k < rounds or rounds > 1:
+            p.op(P, "add a_%s 1" % v)
+        p.op(P, "usignal %s" % u)
+        if rounds > 1:
+            if unsafe:
+                ysafe(r, p, P, 1)
+            p.op(P, "uwait %s" % v)
+            p.exp(P, "get ack%d" % i, 160 + k)
+        if unsafe:
+            ysafe(r, p, 0, 1)
+        p.op(0, "uwait %s" % u)
+        p.exp(0, "get seq%d" % i, 60 + k)
+        if rounds > 1:
+            p.op(0, "set ack%d %d" % (i, 160 + k))
+            if k < rounds:
+                p.op(0, "add a_%s 1" % u)
+            p.op(0, "usignal %s" % v)
     return [P]
 
 
@@ -431,7 +517,7 @@ def twowaiters(r, p, i, unsafe, n):
     return [S]
 
 
-FAMILIES = ["handoff", "pingpong", "spsc", "relay", "chain", "twowaiters", "multi"]
+FAMILIES = ["handoff", "pingpong", "spsc", "relay", "chain", "twowaiters", "mainwait", "multi"]
 HOLD_KS = [5, 20, 60]
 
 
@@ -492,6 +578,8 @@ def gen_program(r, fam, workers):
         joins += chain(r, p, 0, unsafe, r.rng(2, 5))
     elif fam == "twowaiters":
         joins += twowaiters(r, p, 0, unsafe, r.rng(2, 4))
+    elif fam == "mainwait":
+        joins += mainwait(r, p, 0, unsafe, r.rng(1, 3))
     else:
         k = r.rng(2, 3)
         for i in range(k):
@@ -701,7 +789,8 @@ def search_oracle_failure(ctx, exe, drv, case, tries):
 def summarize(ctx, results):
     hist, spins = {}, 0
     dist, verd = {}, {}
-    st = {"rendezvous": 0, "early": 0, "late": 0}
+    st = {"rendezvous": 0, "early": 0, "late": 0, "main_waits": 0, "insertions_checked": 0,
+          "mw_same_worker": 0, "mw_diff_worker": 0, "mw_resumed_elsewhere": 0, "w1_rendezvous": 0}
     for o in results:
         for e in o["res"]["events"]:
             if e.kind == "P" and e.words[0].startswith("uncond."):
@@ -712,8 +801,14 @@ def summarize(ctx, results):
         dist[k] = dist.get(k, 0) + 1
         v = (o["res"]["verdict"] or "none").split()[0]
         verd[v] = verd.get(v, 0) + 1
-        for x in ("rendezvous", "early", "late"):
+        for x in ("rendezvous", "early", "late", "main_waits", "insertions_checked"):
             st[x] += o["stats"].get(x, 0)
+        if o["case"]["workers"] >= 2:       # same / different worker is meaningful with several workers only
+            st["mw_same_worker"] += o["stats"].get("same_worker", 0)
+            st["mw_diff_worker"] += o["stats"].get("diff_worker", 0)
+            st["mw_resumed_elsewhere"] += o["stats"].get("resumed_elsewhere", 0)
+        else:
+            st["w1_rendezvous"] += o["stats"].get("rendezvous", 0)
         st["maxspin"] = max(st.get("maxspin", 0), o["stats"].get("maxspin", 0))
     return hist, spins, dist, verd, st
 
@@ -736,7 +831,13 @@ def run(ctx):
         "disagreements": len(bad_model), "oracle_failures": len(bad_oracle),
         "input_distribution": dist, "verdicts": verd, "point_histogram": hist, "uncond.sig.spin": spins,
         "rendezvous": st["rendezvous"], "signals_early(spun)": st["early"], "signals_late": st["late"],
-        "longest_spin_of_one_signal": st.get("maxspin", 0)}
+        "longest_spin_of_one_signal": st.get("maxspin", 0),
+        "rendezvous_with_main_thread_as_waiter": st["main_waits"],
+        "2-4_workers:wait_and_signal_on_same_worker": st["mw_same_worker"],
+        "2-4_workers:wait_and_signal_on_different_workers": st["mw_diff_worker"],
+        "2-4_workers:waiter_resumed_on_another_worker_than_it_waited_on": st["mw_resumed_elsewhere"],
+        "1_worker:rendezvous": st["w1_rendezvous"],
+        "pushes_whose_run_queue_insertion_was_checked_on_the_machine_snapshot": st["insertions_checked"]}
     for i in (0, len(results) // 2, len(results) - 1):
         o = results[i]
         ctx.cov["samples"].append({"case": o["case"]["text"], "verdict": o["res"]["verdict"], "model": o["model"],
@@ -770,9 +871,12 @@ def run(ctx):
                           found=False)
     else:
         missing = [p for p in POINTS if not hist.get(p)]
-        if missing or not spins or not st["late"]:
-            ctx.violation("coverage", "never exercised on this run: %s%s%s" % (
-                ", ".join(missing), " uncond.sig.spin (early signal)" if not spins else "", " late signal" if not st["late"] else ""),
+        gaps = [k for k in ("main_waits", "mw_same_worker", "mw_diff_worker", "mw_resumed_elsewhere", "w1_rendezvous",
+                            "insertions_checked") if not st[k]]
+        if missing or not spins or not st["late"] or gaps:
+            ctx.violation("coverage", "never exercised on this run: %s%s%s %s" % (
+                ", ".join(missing), " uncond.sig.spin (early signal)" if not spins else "", " late signal" if not st["late"] else "",
+                " ".join(gaps)),
                 {"theorem_or_correspondence": "coverage of the POINT ids of the uncond routines", "histogram": hist}, found=False)
     if struct_bad and not bad_oracle:
         hit = None
